@@ -1591,3 +1591,4 @@ end Agd.Refresh
 #print axioms Agd.Tie.TrC13.cache_error_stops_refresh
 #print axioms Agd.Tie.TrC13.fromFile_tr
 #print axioms Agd.Tie.TrC13.url_consulted_iff_model_cache_miss
+#print axioms Agd.Tie.TrC13.fromURL_tr
